@@ -1620,6 +1620,24 @@ func judge(res *Result, o outcome, prop string, mu *sync.Mutex) {
 		}
 	}
 	switch {
+	case c.cfgRejected():
+		// (comes first: a configuration file that must be rejected ends the run before any device is contacted,
+		// whatever the device would have shown)
+		bad := ""
+		switch {
+		case len(a.lines) > 0:
+			bad = fmt.Sprintf("device contacted (%d requests) although the configuration file must be rejected", len(a.lines))
+		case a.exit == 0:
+			bad = "exit status 0 although the configuration file must be rejected"
+		case !a.diag():
+			bad = "no diagnostic"
+		}
+		if bad != "" {
+			res.Fail(map[string]any{"pred": "other", "backend": c.Backend, "interlock": "config"},
+				fmt.Sprintf("approve (%s) with configuration line %q: %s", c.Front, c.CfgLine, bad), c)
+		} else {
+			res.Count("refused:config")
+		}
 	case il != "":
 		// what went wrong, most serious first
 		violation, bad := "", ""
@@ -1676,22 +1694,6 @@ func judge(res *Result, o outcome, prop string, mu *sync.Mutex) {
 			if otherReason {
 				res.Count("refused:" + il + ":diagnostic-not-judged(other refusal first)")
 			}
-		}
-	case c.cfgRejected():
-		bad := ""
-		switch {
-		case len(a.lines) > 0:
-			bad = fmt.Sprintf("device contacted (%d requests) although the configuration file must be rejected", len(a.lines))
-		case a.exit == 0:
-			bad = "exit status 0 although the configuration file must be rejected"
-		case !a.diag():
-			bad = "no diagnostic"
-		}
-		if bad != "" {
-			res.Fail(map[string]any{"pred": "other", "backend": c.Backend, "interlock": "config"},
-				fmt.Sprintf("approve (%s) with configuration line %q: %s", c.Front, c.CfgLine, bad), c)
-		} else {
-			res.Count("refused:config")
 		}
 	case c.BadConfig || c.Login == "enable-refused":
 		if changed {
